@@ -98,199 +98,227 @@ def _count_field(du, arg, at, depth=0):
     return None
 
 
-def d1_sync_gain(ctx, rule_id="D1"):
-    ctx.rule(rule_id, "each conversion vector ends with np.ones(<sync count>) (sync unscaled, last); analog count = nSavedChans - nsync")
+# ------------------------------------------------------------------------------------------------ conversion-vector layout (semantic)
+DEVICE_CLASSES = {
+    "imec-NP2": {"imec": True, "np2": True},
+    "imec-NP1": {"imec": True, "np2": False},
+    "nidq": {"imec": False, "np2": None},
+}
+
+
+def _class_decide(cls, ext_ref):
+    """Truth of a branch test of _conversion_sample2v_from_meta for a device class (None = not a test on the device / generation)."""
+    def decide(t):
+        if isinstance(t, ast.Name):
+            return ext_ref[0].bools.get(t.id) if ext_ref[0] is not None else None
+        if isinstance(t, ast.UnaryOp) and isinstance(t.op, ast.Not):
+            d = decide(t.operand)
+            return None if d is None else not d
+        if isinstance(t, ast.BoolOp):
+            ds = [decide(v) for v in t.values]
+            if isinstance(t.op, ast.And):
+                return False if any(d is False for d in ds) else (None if any(d is None for d in ds) else True)
+            return True if any(d is True for d in ds) else (None if any(d is None for d in ds) else False)
+        if isinstance(t, ast.Call) and call_name(t) == "startswith" and t.args and isinstance(t.args[0], ast.Constant) and t.args[0].value == "NP2":
+            return cls["np2"]
+        if isinstance(t, ast.Compare) and len(t.ops) == 1:
+            l, op, r = t.left, t.ops[0], t.comparators[0]
+            if isinstance(op, (ast.In, ast.NotIn)) and isinstance(l, ast.Constant):
+                res = None
+                if l.value == "imroTbl":
+                    res = cls["imec"]
+                elif l.value in ("niMNGain", "niMAGain", "niAiRangeMax"):
+                    res = not cls["imec"]
+                elif l.value == "NP2":
+                    res = cls["np2"]
+                if res is None:
+                    return None
+                return res if isinstance(op, ast.In) else not res
+            if isinstance(op, (ast.Eq, ast.NotEq)):
+                for a, b in ((l, r), (r, l)):
+                    if isinstance(b, ast.Constant) and b.value in ("imec", "nidq") and "typeThis" in src(a):
+                        res = cls["imec"] if b.value == "imec" else not cls["imec"]
+                        return res if isinstance(op, ast.Eq) else not res
+        return None
+    return decide
+
+
+def conversion_layouts(ctx):
+    """{class: {stream key: ArrVal}} extracted from the current source, with the extractor (for its value table)."""
+    if "conv_layouts" in ctx.shared:
+        return ctx.shared["conv_layouts"]
+    from sa.segvec import MetaEval, SegExtractor
     repo = ctx.repo
     fi = repo.fn(FN)
-    du = DefUse(fi.node)
-    n = 0
-    for key in ("ap", "lf", "nidq"):
-        vals = _dict_values_for_key(fi.node, key)
-        for d, v in vals:
-            v2 = expand_name(du, v, d)
-            parts = _stack_parts(v2)
-            if parts is None:
-                raise AnalysisError(f"{FN}: value for '{key}' is not a stack of segments: {src(v2)[:80]}")
-            n += 1
-            last = parts[-1]
-            ok, lv = _is_plain_ones(repo, fi, du, last, d)
-            cnt_ok = False
-            if ok:
-                cf = _count_field(du, lv.args[0], d) if lv.args else None
-                if key == "nidq":
-                    cnt_ok = cf in (("snsMnMaXaDw", 3), ("snsMnMaXaDw", -1))
+    nfields = 5
+    for c in find(fi.node, ast.Call, lambda c: call_name(c) == "findall"):
+        pat = c.args[0] if c.args else None
+        if isinstance(pat, ast.Constant) and isinstance(pat.value, str) and "imroTbl" in src(c):
+            nfields = pat.value.count("[0-9]*")
+    out = {}
+    for cname, cls in DEVICE_CLASSES.items():
+        ref = [None]
+        ev = MetaEval(resolve=_resolver(repo, fi), nfields=nfields)
+        ex = SegExtractor(ev, _class_decide(cls, ref))
+        ref[0] = ex
+        ev.decide = ex.decide
+        ev.local_functions = {st.name: st for st in fi.node.body if isinstance(st, ast.FunctionDef)}
+        ret = ex.run_function(fi.node.body)
+        if ret is None:
+            raise AnalysisError(f"{FN}: no conversion table is returned for {cname} metadata")
+        out[cname] = (ret, ex)
+    ctx.shared["conv_layouts"] = (out, nfields)
+    return out, nfields
+
+
+def _expected(cname, key, m):
+    """[(tag kind, entry index)] per channel for the counts m, in the symbols of sa/segvec.MetaEval."""
+    R = Poly.sym("md[imAiRangeMax]") if cname != "nidq" else Poly.sym("md[niAiRangeMax]")
+    I = R * Poly.sym("MAXINT").pow(-1)
+    one = ("VAL:" + Poly.const(1).canon(), 0)
+    if cname == "imec-NP2":
+        v = ("VAL:" + (I * Poly.const(80).pow(-1)).canon(), 0)
+        return [v] * (m["NC"] - m["NSYNC"]) + [one] * m["NSYNC"]
+    if cname == "imec-NP1":
+        g = Poly.sym("G3" if key == "ap" else "G4")
+        f = "UP:" + (I * g.pow(-1)).canon()
+        return [(f, i) for i in range(m["NC"] - m["NSYNC"])] + [one] * m["NSYNC"]
+    gains = [I * Poly.sym("md[niMNGain]").pow(-1), I * Poly.sym("md[niMAGain]").pow(-1), I, Poly.const(1)]
+    out = []
+    for k, gname in enumerate(("MN", "MA", "XA", "DW")):
+        out += [("VAL:" + gains[k].canon(), 0)] * m[gname]
+    return out
+
+
+def _layout_mismatches(ctx):
+    """[(class, key, counts, position, got, want, part)] for every stream of every device class; part in {'length','analog','sync'}."""
+    if "conv_mismatch" in ctx.shared:
+        return ctx.shared["conv_mismatch"]
+    from sa.regions import models, paint, paint_nodes
+    (layouts, nfields) = conversion_layouts(ctx)
+    res = []
+    nmod = 0
+    for cname, (ret, ex) in layouts.items():
+        keys = ("ap", "lf") if cname != "nidq" else ("nidq",)
+        for key in keys:
+            if key not in ret:
+                res.append((cname, key, None, None, None, None, "missing", None))
+                continue
+            a = ret[key]
+            if cname != "nidq":
+                ms = models(("NC", "NSYNC"), [lambda m: m["NSYNC"] <= m["NC"] - 1], {"NC": (1, 5), "NSYNC": (0, 2)})
+            else:
+                ms = models(("MN", "MA", "XA", "DW"), [lambda m: m["MN"] + m["MA"] + m["XA"] + m["DW"] >= 1], {k: (0, 2) for k in ("MN", "MA", "XA", "DW")})
+            first = {}
+            for m in ms:
+                nmod += 1
+                env = dict(m)
+                if cname == "nidq":
+                    env["NC"] = m["MN"] + m["MA"] + m["XA"] + m["DW"]
+                    env["NSYNC"] = m["DW"]
                 else:
-                    cnt_ok = cf in (("snsApLfSy", 2), ("snsApLfSy", -1))
-            ctx.check(ok and cnt_ok, fi, v, f"{key}: last segment {src(last)[:60]}",
-                      f"'{key}' vector ends with an all-ones sync segment sized by the metadata sync count",
-                      f"'{key}' vector's last segment is `{src(lv)[:80]}`: the sync channel(s) would be scaled or mis-sized",
-                      key=f"sync-ones:{key}:{n}")
-            # no other segment may be a bare sync-sized ones (sync must be last) and analog segments come first
-            if key != "nidq":
-                ctx.check(len(parts) == 2, fi, v, f"{key}: {len(parts)} segments", "vector is (analog gains, sync ones)",
-                          "vector is not the pair (analog gains, sync ones)", key=f"two-parts:{key}:{n}")
-    if n < 3:
-        raise AnchorMissing(f"{FN}: expected conversion vectors for ap, lf (two branches) and nidq, found {n}")
-    # analog count
-    defs = [d for d in du.defs if d.var == "n_chn" and d.kind == "assign"]
-    for d in defs:
-        v = d.value
-        ok = isinstance(v, ast.BinOp) and isinstance(v.op, ast.Sub) and "_get_nchannels_from_meta" in src(v.left) \
-            and "_get_sync_trace_indices_from_meta" in src(v.right) and "len(" in src(v.right)
-        ctx.check(ok, fi, d.stmt, d.stmt, "analog channel count = saved channels - sync channels",
-                  f"analog channel count `{src(v)}` is not nSavedChans - nsync", key="n_chn")
-    if not defs:
-        ctx.note("analog count variable n_chn not found (layout changed); clause not evaluated")
+                    env["NAP"] = m["NC"] - m["NSYNC"]
+                    env["NLF"] = m["NC"] - m["NSYNC"]
+                want = _expected(cname, key, env)
+                got = paint(a, env)
+                if got is None:
+                    raise AnalysisError(f"{FN}: layout of '{key}' ({cname}) not evaluable for counts {m}: length {a.length}")
+                nsync = env["NSYNC"]
+                if len(got) != len(want):
+                    first.setdefault("length", (cname, key, m, None, len(got), len(want), "length", None))
+                    continue
+                for p_ in range(len(want)):
+                    if got[p_] != want[p_]:
+                        part = "sync" if p_ >= len(want) - nsync else "analog"
+                        if part not in first:
+                            nodes = paint_nodes(a, env) or []
+                            first[part] = (cname, key, m, p_, got[p_], want[p_], part, nodes[p_] if p_ < len(nodes) else None)
+            res += list(first.values())
+    ctx.shared["conv_mismatch"] = (res, nmod)
+    return res, nmod
 
 
-def _gain_formula(ctx, repo, fi, expr, label):
-    """Return (poly, field index or None). The per-entry gain read becomes symbol G, int2volt symbol I."""
-    field = {}
+def _show(t):
+    if t is None:
+        return "?"
+    k, i = t
+    if k.startswith("UP:"):
+        return f"{k[3:]} (IMRO entry {i})"
+    return k[4:] if k.startswith("VAL:") else k
 
-    def resolve(e):
-        return repo.resolve_expr(fi, e)
 
-    class Ev(Evaluator):
-        def ev(self, e):
-            if isinstance(e, ast.Call) and call_name(e) in ("float32", "float64", "float", "int", "double") and e.args:
-                a = e.args[0]
-                if isinstance(a, ast.Subscript) and isinstance(a.value, ast.Call) and call_name(a.value) == "split":
-                    ok, k = const_value(a.slice)
-                    field["k"] = k if ok else None
-                    field["sep"] = a.value.args[0].value if a.value.args and isinstance(a.value.args[0], ast.Constant) else None
-                    return Poly.sym("G")
-            return super().ev(e)
+def d1_sync_gain(ctx, rule_id="D1"):
+    ctx.rule(rule_id, "every conversion vector has one factor per saved channel; the last NSYNC factors are 1 (sync unscaled, last) for every channel / sync count, zero sync channels included")
+    repo = ctx.repo
+    fi = repo.fn(FN)
+    res, nmod = _layout_mismatches(ctx)
+    bad = [r for r in res if r[6] in ("length", "sync", "missing")]
+    seen = set()
+    for cname, key, m, p_, got, want, part, node in bad:
+        if part == "missing":
+            ctx.violation(fi, fi.node, f"{cname}: '{key}'", f"no '{key}' conversion vector is returned for {cname} metadata", key=f"layout:{cname}:{key}:missing", name_free=True)
+        elif part == "length":
+            ctx.violation(fi, fi.node, f"{cname} '{key}' counts {m}", f"[{cname}] the '{key}' vector has {got} entries for counts {m}, expected {want} (one per saved channel): "
+                          "the per-channel factors no longer line up with the channels", key=f"layout:{cname}:{key}:length", name_free=True)
+        else:
+            ctx.violation(fi, node if node is not None else fi.node, node if node is not None else f"{cname} '{key}' counts {m}", f"[{cname}] with counts {m} channel {p_} of the '{key}' vector (a sync channel) gets factor {_show(got)} instead of 1",
+                          key=f"layout:{cname}:{key}:sync", name_free=True)
+        seen.add((cname, key))
+    for cname in DEVICE_CLASSES:
+        for key in (("ap", "lf") if cname != "nidq" else ("nidq",)):
+            if (cname, key) not in seen:
+                ctx.ok(fi, fi.node, f"{cname} '{key}'", "one factor per saved channel, sync channels last with factor 1 (all counts in the box, NSYNC = 0 included)", key=f"layout:{cname}:{key}")
+    ctx.note(f"conversion-vector layouts evaluated on {nmod} count assignments (NC 1..5 x NSYNC 0..2; nidq categories 0..2 each)")
 
-    ev = Ev(env={"int2volt": Poly.sym("I")}, resolve=resolve)
-    try:
-        p = ev.ev(expr)
-    except Undecided as e:
-        raise AnalysisError(f"{FN}: cannot normalise {label} gain expression: {e}")
-    return p, field
+
+def d_analog_layout(ctx, rule_id):
+    """C01's view of D2 + D8: every analog channel gets its own generation / stream / category factor."""
+    ctx.rule(rule_id, "analog channels convert with range / max-int / their own gain (NP2: 80; NP1: IMRO AP gain for ap, LF gain for lf, entry i for channel i; "
+                      "nidq: category gain), for every channel / sync count")
+    fi = ctx.repo.fn(FN)
+    res, nmod = _layout_mismatches(ctx)
+    bad = [r for r in res if r[6] == "analog"]
+    for cname, key, m, p_, got, want, part, node in bad:
+        ctx.violation(fi, node if node is not None else fi.node, node if node is not None else f"{cname} '{key}' counts {m}",
+                      f"[{cname}] with counts {m} channel {p_} of the '{key}' vector converts with {_show(got)}; expected {_show(want)}",
+                      key=f"analog:{cname}:{key}", name_free=True)
+    if not bad:
+        ctx.ok(fi, fi.node, "analog factors", "every analog channel carries its own factor", key="analog")
 
 
 def d2_ap_lf(ctx):
-    ctx.rule("D2", "ap/lf conversion formulas: int2volt/gain, differing only in the IMRO field (ap=3, lf=4 of 5); NP2 ap==lf==int2volt/80")
+    ctx.rule("D2", "analog factors: NP2 ap == lf == range/max-int/80; NP1 ap = range/max-int/IMRO field 3, lf = field 4 (of 5), entry i for channel i; "
+                   "range key matches the device")
     repo = ctx.repo
     fi = repo.fn(FN)
-    du = DefUse(fi.node)
-    dicts = [d for d in find(fi.node, ast.Dict) if {"ap", "lf"} <= {k.value for k in d.keys if isinstance(k, ast.Constant)}]
-    if len(dicts) < 2:
-        raise AnchorMissing(f"{FN}: expected an NP2 and an NP1 {{'ap','lf'}} table, found {len(dicts)}")
-    # number of fields captured by the IMRO regex
-    nfields = None
-    for c in find(fi.node, ast.Call, lambda c: call_name(c) == "findall"):
-        if len(c.args) >= 2 and "imroTbl" in src(c.args[1]) and isinstance(c.args[0], ast.Constant):
-            nfields = c.args[0].value.count("[0-9]*")
-    I, G = Poly.sym("I"), Poly.sym("G")
-    seen_np1 = seen_np2 = False
-    for d in dicts:
-        vals = {k.value: v for k, v in zip(d.keys, d.values) if isinstance(k, ast.Constant)}
-        res = {}
-        for key in ("ap", "lf"):
-            parts = _stack_parts(expand_name(du, vals[key], d))
-            if not parts:
-                raise AnalysisError(f"{FN}: '{key}' is not a stacked vector")
-            res[key] = _gain_formula(ctx, repo, fi, parts[0], key)
-        (pa, fa), (pl, fl) = res["ap"], res["lf"]
-        if "G" in pa.symbols() or "G" in pl.symbols():
-            seen_np1 = True
-            want = I * G.pow(-1)
-            ctx.check(pa == want and pl == want, fi, d, f"ap: {pa.canon()} ; lf: {pl.canon()}",
-                      "NP1 ap and lf gains are int2volt / <imro gain>",
-                      f"NP1 conversion is ap: {pa.canon()}, lf: {pl.canon()} (I=int2volt, G=IMRO gain field) - expected I*G^-1 for both",
-                      key="np1-formula")
-            if nfields is None:
-                raise AnalysisError(f"{FN}: IMRO regex not found")
-            ka, kl = fa.get("k"), fl.get("k")
-            na = ka % nfields if isinstance(ka, int) else None
-            nl = kl % nfields if isinstance(kl, int) else None
-            ctx.check(nfields == 5 and na == 3 and nl == 4 and fa.get("sep") == " " and fl.get("sep") == " ", fi, d,
-                      f"regex fields={nfields}, ap field={ka}, lf field={kl}",
-                      "ap reads IMRO field 3 (AP gain) and lf reads field 4 (LF gain) of the 5 captured fields",
-                      f"IMRO field selection is ap={ka}, lf={kl} over {nfields} captured fields (expected 3 and 4 of 5)",
-                      key="imro-fields")
-        else:
-            seen_np2 = True
-            want = I * Poly.const(80).pow(-1)
-            ctx.check(pa == want and pl == want, fi, d, f"ap: {pa.canon()} ; lf: {pl.canon()}",
-                      "NP2 ap and lf conversions are both int2volt / 80",
-                      f"NP2 conversion is ap: {pa.canon()}, lf: {pl.canon()} - expected I/80 for both (LF is derived from AP, see C12)",
-                      key="np2-formula")
-    if not (seen_np1 and seen_np2):
-        raise AnchorMissing(f"{FN}: NP1 or NP2 gain table missing")
-    # int2volt = range / maxint : every value the scalar can take, with the branch predicates it is computed under
-    inner = repo.functions.get(FN + ".int2volts")
-    table = []
-    if inner is not None:
-        du2 = DefUse(inner.node)
-        for r in returns_of(inner.node):
-            if r.value is not None:
-                table += [(gs, v, r, inner) for gs, v in value_alternatives(du2, r.value, r)]
-    else:
-        ctx.note("nested int2volts helper not found; range/max-int clause evaluated on the definitions of int2volt")
-        for d in [d for d in du.defs if d.var == "int2volt" and d.kind == "assign" and d.value is not None]:
-            table += [(gs, v, d.stmt, fi) for gs, v in value_alternatives(du, d.value, d.stmt)]
-    n = 0
-    for gs, v, at_node, owner in table:
-        if not (isinstance(v, ast.BinOp) and isinstance(v.op, ast.Div)):
+    res, nmod = _layout_mismatches(ctx)
+    (layouts, nfields) = conversion_layouts(ctx)
+    ctx.check(nfields == 5, fi, fi.node, f"IMRO regex captures {nfields} fields", "IMRO entries are read as (chan bank ref apgain lfgain)",
+              f"the IMRO regex captures {nfields} fields per entry, the NP1 layout has 5 leading integer fields", key="imro-fields")
+    seen = set()
+    for cname, key, m, p_, got, want, part, node in res:
+        if part != "analog" or cname == "nidq":
             continue
-        n += 1
-        num, den = v.left, v.right
-        ok_den = isinstance(den, ast.Call) and repo.resolve_call(owner, den) == "spikeglx._get_max_int_from_meta"
-        at = GD.Atoms()
-        pc = GD.And(*[GD.formula(t, at, pol) for t, pol in gs])
-        imec_atoms = [k for k in GD.atoms_of(pc) if "'imec'" in k and "typeThis" in k]
-        imec = any(GD.entails(pc, GD.Atom(k)) is True for k in imec_atoms)
-        not_imec = any(GD.entails(pc, GD.Not(GD.Atom(k))) is True for k in imec_atoms)
-        key = None
-        if isinstance(num, ast.Call) and call_name(num) == "get" and num.args:
-            key = const_value(num.args[0])[1]
-        elif isinstance(num, ast.Subscript):
-            key = const_value(num.slice)[1]
-        key_ok = key == "imAiRangeMax" if imec else key == "niAiRangeMax" if not_imec else False
-        ctx.check(ok_den and key_ok, fi, at_node, v, "int2volt = device range key / max-int",
-                  f"`{src(v)}` is not <imAiRangeMax|niAiRangeMax for the right device> / _get_max_int_from_meta(md)", key=f"int2volt:{'imec' if imec else 'nidq'}")
-    if n < 2:
-        raise AnchorMissing("int2volts: expected two range/max-int alternatives")
+        ctx.violation(fi, node if node is not None else fi.node, node if node is not None else f"{cname} '{key}' counts {m}", f"[{cname}] with counts {m} channel {p_} of the '{key}' vector converts with {_show(got)}; expected {_show(want)} "
+                      f"(G3 = AP gain, G4 = LF gain of the IMRO entry; md[..] = metadata field)", key=f"formula:{cname}:{key}", name_free=True)
+        seen.add((cname, key))
+    for cname in ("imec-NP2", "imec-NP1"):
+        for key in ("ap", "lf"):
+            if (cname, key) not in seen:
+                ctx.ok(fi, fi.node, f"{cname} '{key}'", "analog factors as stated", key=f"formula:{cname}:{key}")
 
 
 def d8_nidq_segments(ctx):
-    ctx.rule("D8", "nidq vector = [MN: int2volt/niMNGain, MA: int2volt/niMAGain, XA: int2volt, DW: 1], segment i sized by snsMnMaXaDw[i]")
+    ctx.rule("D8", "nidq vector = [MN x range/max-int/niMNGain, MA x range/max-int/niMAGain, XA x range/max-int, DW x 1] with the counts of snsMnMaXaDw, for every count combination")
     repo = ctx.repo
     fi = repo.fn(FN)
-    du = DefUse(fi.node)
-    vals = _dict_values_for_key(fi.node, "nidq")
-    if not vals:
-        raise AnchorMissing(f"{FN}: nidq branch not found")
-    d, v = vals[0]
-    parts = _stack_parts(expand_name(du, v, d))
-    if parts is None:
-        raise AnalysisError(f"{FN}: nidq vector is not a stack of segments")
-    I = Poly.sym("I")
-
-    class E(Evaluator):
-        def ev(self, e):
-            if isinstance(e, ast.Subscript) and isinstance(e.slice, ast.Constant) and isinstance(e.slice.value, str) and e.slice.value.startswith("ni"):
-                return Poly.sym(e.slice.value)
-            if isinstance(e, ast.Call) and call_name(e) == "get" and e.args and isinstance(e.args[0], ast.Constant) and str(e.args[0].value).startswith("ni"):
-                return Poly.sym(e.args[0].value)
-            return super().ev(e)
-    want = [("MN", I * Poly.sym("niMNGain").pow(-1)), ("MA", I * Poly.sym("niMAGain").pow(-1)), ("XA", I), ("DW", Poly.const(1))]
-    ctx.check(len(parts) == 4, fi, v, f"{len(parts)} segments", "four channel categories in SpikeGLX order (MN, MA, XA, DW)", f"nidq vector has {len(parts)} segments, expected 4", key="nidq:count")
-    for i, part in enumerate(parts[:4]):
-        name, w = want[i]
-        ev = E(env={"int2volt": I}, resolve=lambda e: repo.resolve_expr(fi, e))
-        try:
-            p = ev.ev(part)
-        except Undecided as e:
-            raise AnalysisError(f"{FN}: nidq segment {name} not evaluable: {e}")
-        ones = [c for c in find(part, ast.Call) if call_name(c) == "ones"]
-        cf = _count_field(du, ones[0].args[0], d) if ones and ones[0].args else None
-        ctx.check(p == w, fi, part, f"{name}: {p}", f"{name} channels convert with {w}",
-                  f"nidq segment {i} ({name}) converts with {p} (I = int2volt); expected {w}: those channels are scaled with the wrong gain field", key=f"nidq:gain:{name}")
-        ctx.check(cf in (("snsMnMaXaDw", i), ("snsMnMaXaDw", i - 4)), fi, part, f"{name}: count from {cf}", f"{name} segment has snsMnMaXaDw[{i}] entries",
-                  f"nidq segment {i} ({name}) is sized by {cf}, expected snsMnMaXaDw[{i}]", key=f"nidq:count:{name}")
+    res, nmod = _layout_mismatches(ctx)
+    bad = [r for r in res if r[0] == "nidq" and r[6] == "analog"]
+    for cname, key, m, p_, got, want, part, node in bad:
+        ctx.violation(fi, node if node is not None else fi.node, node if node is not None else f"nidq counts {m}", f"[nidq] with channel counts {m} channel {p_} converts with {_show(got)}; expected {_show(want)}: those channels are scaled with the "
+                      "wrong gain field or the categories are mis-sized", key="nidq:layout", name_free=True)
+    if not bad:
+        ctx.ok(fi, fi.node, "nidq layout", "MN / MA / XA / DW stretches carry their own gain and count", key="nidq:layout")
 
 
 def d3_reader_writer(ctx):
